@@ -85,7 +85,7 @@ let arg_of = function
   | "I" | "I=1" -> AInteractive true | "I=0" -> AInteractive false
   | "E" | "E=1" -> AExitOnFail true | "E=0" -> AExitOnFail false
   | "C" -> ACommand false | "CI" -> ACommand true
-  | "B" -> ABool | "VI" -> AStr true | "V" -> AStr false | "D" -> ADashDash | "P" -> APlain | "X" -> ABad
+  | "B" | "Bd" | "Bd=0" -> ABool | "VI" -> AStr true | "V" -> AStr false | "D" -> ADashDash | "P" -> APlain | "X" -> ABad
   | s -> raise (Bad ("arg " ^ s))
 let outcome_name = function ORejected -> "rejected" | OSandboxed -> "sandboxed" | OOpen -> "open"
 let cmdline_case (toks : ostring) : ostring * ostring =
@@ -122,6 +122,67 @@ let session_case (toks : ostring) : ostring * ostring =
     | Some phs -> Stdlib.String.concat "," (List.map (fun (ph, k) -> phase_name ph ^ ":" ^ outcome_name k) phs)) in
   (m, spec)
 
+(* family cases: INPUT = "fam <history>@<target> <abstract program | names> :: ..." (harness/cmd/c08/family.go).
+   MODEL = names_of (sorted, unique, "names:a,b,c") or family_predicted; SPEC = "-" (no effect allowed) when the
+   target descends from NewZlispSandbox (origin_of, the ghost the model's transitions never read), "any" otherwise. *)
+let rec nat_of_int (n : int) = if n <= 0 then O else S (nat_of_int (n - 1))
+let fop_of (t : ostring) : fop =
+  let n = Stdlib.String.length t in
+  if n = 0 then raise (Bad "empty op") else
+  let rest = Stdlib.String.sub t 1 (n - 1) in
+  let idx s = (try nat_of_int (int_of_string s) with _ -> raise (Bad ("op " ^ t))) in
+  match t.[0] with
+  | 'S' -> FNewSandbox | 'F' -> FNewFull
+  | 'U' -> FStdSetup (idx rest) | 'M' -> FDemo (idx rest) | 'D' -> FDup (idx rest) | 'C' -> FClone (idx rest)
+  | 'V' -> (match Stdlib.String.split_on_char ':' rest with
+            | [i; nm] -> FDefValue (idx i, coq_of_string nm) | _ -> raise (Bad ("op " ^ t)))
+  | 'A' -> (match Stdlib.String.split_on_char ':' rest with
+            | [i; nm; m] -> FDefAlias (idx i, coq_of_string nm, coq_of_string m) | _ -> raise (Bad ("op " ^ t)))
+  | _ -> raise (Bad ("op " ^ t))
+let family_case (rest : ostring) : ostring * ostring =
+  let sp = (try Stdlib.String.index rest ' ' with Not_found -> raise (Bad "fam")) in
+  let hist = Stdlib.String.sub rest 0 sp and abs = Stdlib.String.sub rest (sp + 1) (Stdlib.String.length rest - sp - 1) in
+  let at = (try Stdlib.String.rindex hist '@' with Not_found -> raise (Bad "fam@")) in
+  let ops = List.map fop_of (List.filter (fun x -> x <> "") (Stdlib.String.split_on_char ',' (Stdlib.String.sub hist 0 at))) in
+  let t = nat_of_int (int_of_string (Stdlib.String.sub hist (at + 1) (Stdlib.String.length hist - at - 1))) in
+  let st = run_family ops in
+  let spec = (match origin_of st t with Some true -> "-" | Some false -> "any" | None -> raise (Bad "no such member")) in
+  if abs = "names" then begin
+    let ns = List.sort_uniq compare (List.map string_of_coq (names_of st t)) in
+    ("names:" ^ Stdlib.String.concat "," ns, spec)
+  end else begin
+    let p, r = parse (tokenize abs) in
+    if r <> [] then raise (Bad "trailing tokens");
+    let effs = List.map string_of_coq (family_predicted st t p) in
+    ((if effs = [] then "-" else Stdlib.String.concat "," effs), spec)
+  end
+
+(* plan cases: INPUT = "plan <tokens> :: zygo <argv>" (tokens as for cmdline, Bd = -demo, Bd=0 = -demo=false).
+   MODEL = what ReplMain constructs for the scanned flag part according to the GENERATED replmain_plans:
+   "sandboxed" / "open" (constructor) then "+demo" when ImportDemoData is one of the steps; "rejected". *)
+let plan_case (toks : ostring) : ostring * ostring =
+  let ws = List.filter (fun x -> x <> "") (Stdlib.String.split_on_char ' ' toks) in
+  let args = List.map (fun t -> if t = "Bd" || t = "Bd=0" then ABool else arg_of t) ws in
+  let rec flagpart acc = function
+    | (a, w) :: r when is_flag a -> flagpart ((a, w) :: acc) r
+    | r -> (List.rev acc, List.map fst r) in
+  let pre, rest = flagpart [] (List.combine args ws) in
+  let demo = List.fold_left (fun d (_, w) -> if w = "Bd" then true else if w = "Bd=0" then false else d) false pre in
+  let spec = (match rest with
+    | [] | APlain :: _ | ADashDash :: _ -> if last_sandbox false (List.map fst pre) then "sandboxed" else "-"
+    | _ -> "-") in
+  let m = (match scan st0 args with
+    | Rejected -> "rejected"
+    | Parsed (s, _) ->
+      (match construction s demo with
+       | None -> "no-plan"
+       | Some ops ->
+         let ctor = (match ops with FNewSandbox :: _ -> "sandboxed" | FNewFull :: _ -> "open" | _ -> "?") in
+         let has_demo = List.exists (function FDemo _ -> true | _ -> false) ops in
+         let unknown = List.exists (function FUnknown _ -> true | _ -> false) ops in
+         ctor ^ (if has_demo then "+demo" else "") ^ (if unknown then "+unknown" else ""))) in
+  (m, spec)
+
 let cfg_of = function "bare" -> Bare | "std" -> Std | "bin" -> Bin | "full" -> Full | s -> raise (Bad ("cfg " ^ s))
 
 let () =
@@ -129,7 +190,7 @@ let () =
     List.iter (fun c ->
       List.iter (fun ((t, n), f) ->
         Printf.printf "%s\t%s\t%s\t%s\n" (string_of_coq (cfg_name c)) (string_of_coq t) (string_of_coq n) (string_of_coq f))
-        (impure_entries c)) [Bare; Std; Bin; Full]
+        (impure_entries (ctx_of c))) [Bare; Std; Bin; Full]
   end else
   iter_lines (fun line ->
     match split_tab line with
@@ -141,6 +202,14 @@ let () =
           let m, sp = session_case (Stdlib.String.sub head 8 (Stdlib.String.length head - 8)) in
           Printf.printf "%s\t%s\t%s\n" id m sp
         end else
+        if Stdlib.String.length head > 4 && Stdlib.String.sub head 0 4 = "fam " then begin
+          let m, sp = family_case (Stdlib.String.sub head 4 (Stdlib.String.length head - 4)) in
+          Printf.printf "%s\t%s\t%s\n" id m sp
+        end else
+        if Stdlib.String.length head > 5 && Stdlib.String.sub head 0 5 = "plan " then begin
+          let m, sp = plan_case (Stdlib.String.sub head 5 (Stdlib.String.length head - 5)) in
+          Printf.printf "%s\t%s\t%s\n" id m sp
+        end else
         if Stdlib.String.length head > 8 && Stdlib.String.sub head 0 8 = "cmdline " then begin
           let m, sp = cmdline_case (Stdlib.String.sub head 8 (Stdlib.String.length head - 8)) in
           Printf.printf "%s\t%s\t%s\n" id m sp
@@ -150,8 +219,8 @@ let () =
         let abs = String.sub head (sp + 1) (String.length head - sp - 1) in
         let p, rest = parse (tokenize abs) in
         if rest <> [] then raise (Bad "trailing tokens");
-        let effs = List.map string_of_coq (predicted_effects c p) in
+        let effs = List.map string_of_coq (predicted_effects (ctx_of c) p) in
         let m = if effs = [] then "-" else String.concat "," effs in
-        Printf.printf "%s\t%s\t%s\n" id m (if sandboxed c then "-" else "any")
+        Printf.printf "%s\t%s\t%s\n" id m (if sandboxed (ctx_of c) then "-" else "any")
       with Bad msg -> Printf.printf "%s\tBAD:%s\t-\n" id msg)
     | _ -> ())
